@@ -30,6 +30,28 @@ fn iterate(b: &[u8]) -> Result<Result<Vec<String>, RtcpParseError>, drive::Panic
         if n != out.len() {
             out.push(format!("Compound::count() == {n} although iteration yields {} packets", out.len()));
         }
+        // ... also when the members are reached by position (nth(), and skip() / step_by(), which std builds on it)
+        let len = out.len();
+        for k in 0..len.min(6) {
+            let got = format!("{:?}", Compound::parse(b)?.nth(k));
+            let want = format!("Some({})", out[k]);
+            if got != want {
+                out.push(format!("Compound::nth({k}) == {} although the iteration's item {k} is {}", crate::json::trunc(&got, 160), crate::json::trunc(&want, 160)));
+                break;
+            }
+        }
+        if len >= 2 {
+            let skipped: Vec<String> = Compound::parse(b)?.skip(1).take(len + 1).map(|r| format!("{r:?}")).collect();
+            if skipped[..] != out[1..len] {
+                out.push(format!("Compound::skip(1) yields {} packets although {} follow the first", skipped.len(), len - 1));
+            }
+            let mut it = Compound::parse(b)?;
+            let _ = it.next();
+            let last = format!("{:?}", it.nth(len - 2));
+            if last != format!("Some({})", out[len - 1]) {
+                out.push(format!("after one packet Compound::nth({}) == {} although the last packet is {}", len - 2, crate::json::trunc(&last, 160), crate::json::trunc(&out[len - 1], 160)));
+            }
+        }
         Ok(out)
     })
 }
